@@ -7,7 +7,7 @@ import numpy as np
 from harness import quadpanel as Qp, runlevel as R, skel as S
 
 PROPS = ["Props/C06.v"] + (["Props/C06poll.v"] if os.path.exists(os.path.join(os.path.dirname(__file__), "..", "coq", "Props", "C06poll.v")) else [])
-THEOREMS = ["C06_never_worse_than_start", "C06_monotone_progress", "C06_always_stops"]
+THEOREMS = ["C06_never_worse_than_start", "C06_monotone_progress", "C06_always_stops", "C06_poll_descent"]
 LEVEL = "proof"
 RULE = ("(a) deterministic real runs compared with the skeleton model (premises det_ok evaluated per event) for the per-run clause; (b) the population clause is SAMPLED, never proved: "
         "panel of random rotated quadratics (eigenvalues in [1,100], minimiser in [-4,4]^D, start uniform in the plausible box, D 1..5, default options): quick 20 problems with a gross threshold "
